@@ -1,4 +1,6 @@
 """Variable and per-master static builds through the real CLI (C18)."""
+import hashlib
+import json
 import shutil
 import tempfile
 from pathlib import Path
@@ -6,15 +8,16 @@ from pathlib import Path
 from . import cli, common
 
 
-def toml_for(output, axes, masters, options):
-    """axes: [(tag, name, default)]; masters: [(name, style, {tag: pos})]; options: {key: toml literal}."""
+def toml_for(output, axes, masters, options, subdir=""):
+    """axes: [(tag, name, default)]; masters: [(name, style, {tag: pos})]; options: {key: toml literal}; the masters' sources
+    live in <master>/<subdir>."""
     lines = [f'output_file = "{output}"']
     for k, v in options.items():
         lines.append(f"{k} = {v}")
     for tag, name, default in axes:
         lines += [f"[axis.{tag}]", f'name = "{name}"', f"default = {default}"]
     for mname, style, pos in masters:
-        lines += [f"[master.{mname}]", f'style_name = "{style}"', f'srcs = ["{mname}/*.svg"]', f"[master.{mname}.position]"]
+        lines += [f"[master.{mname}]", f'style_name = "{style}"', f'srcs = ["{mname}/{subdir}*.svg"]', f"[master.{mname}.position]"]
         lines += [f"{tag} = {p}" for tag, p in pos.items()]
     return "\n".join(lines) + "\n"
 
@@ -22,10 +25,14 @@ def toml_for(output, axes, masters, options):
 def build_vf(root, axes, masters, sources, options, output="VF.ttf"):
     """sources: {master name: {file name: svg text}}.  -> (rc, log, font bytes or None)"""
     sb = cli.Sandbox(Path(root))
+    # every other scenario keeps each master's files in an identically named leaf directory (<master>/svg/<file>): the
+    # masters' sources then agree in file name AND parent directory name, and differ only higher up the path
+    digest = hashlib.sha1(json.dumps(sources, sort_keys=True).encode()).digest()
+    subdir = "svg/" if digest[0] % 2 else ""
     for m, files in sources.items():
         for fn, text in files.items():
-            sb.write(f"{m}/{fn}", text)
-    sb.write("config.toml", toml_for(output, axes, [m for m in masters], options))
+            sb.write(f"{m}/{subdir}{fn}", text)
+    sb.write("config.toml", toml_for(output, axes, [m for m in masters], options, subdir=subdir))
     rc, out = sb.run(["config.toml"])
     p = sb.build / output
     return rc, out, (p.read_bytes() if rc == 0 and p.exists() else None)
